@@ -315,9 +315,9 @@ class RaggedArray(IndexableArray, np.lib.mixins.NDArrayOperatorsMixin):
         if method == "accumulate":
             return self._accumulate(ufunc, inputs[0], **kwargs)
         datas = []
-        inputs = [np.asanyarray(i) if not hasattr(i, "dtype") else i
+        inputs = [i if hasattr(i, "dtype") or isinstance(i, Number) else np.asanyarray(i)
                   for i in inputs]
-        result_type = np.result_type(*(i.dtype for i in inputs))
+        result_type = np.result_type(*(i.dtype if hasattr(i, "dtype") else i for i in inputs))
         for input in inputs:
             if isinstance(input, Number) or (isinstance(input, np.ndarray) and input.ndim == 0):
                 datas.append(input)
